@@ -18,7 +18,10 @@ RULE = ("Each case = a small generated index (0-3 commits, with deletions) and 1
         "normalize twice, a&b, a|b, a-b against the explicit And/Or/And-Not trees, with_boost, replace(absent "
         "term), apply(identity), accept(identity), copy, deepcopy, pickle, simplify(reader)} the set "
         "docs_for_query(r(q)) must equal docs_for_query(q); normalize must be idempotent and not raise; "
-        "estimate_size >= match count. A (query, rewrite) pair is non-trivial when r(q) != q structurally and the "
+        "estimate_size >= match count. Near-duplicates: for up to three copies q' of q that differ in one matching-"
+        "relevant parameter of one node (slop, ordered, mindist, span limit, fuzzy distance / prefix length, an "
+        "excluded range end), And([q, q']).normalize() and Or([q, q']).normalize() must match docs(q) & docs(q') and "
+        "docs(q) | docs(q'). A (query, rewrite) pair is non-trivial when r(q) != q structurally and the "
         "result set is neither empty nor every document; distinct by SHA-1 of (rewrite, query shape, result size).")
 ASSUMPTIONS = [
     "the original query's own result (docs_for_query) is the reference; its absolute correctness is C01's subject",
@@ -96,6 +99,41 @@ def _pairs(qj):
     return None
 
 
+def _siblings(qj, limit=3):
+    """copies of the tree that differ from it in exactly one matching-relevant parameter of one node (slop, ordered,
+    mindist, limit, maxdist, prefix length, an excluded end): near-duplicates a compound must not merge"""
+    import copy
+    out = []
+    nodes = list(walk(qj))
+    for i, x in enumerate(nodes):
+        muts = []
+        op = x["op"]
+        if op in ("phrase", "sequence", "span_near2", "span_near"):
+            muts.append(("slop", x.get("slop", 1) + 1))
+        if op in ("sequence", "span_near2", "span_near"):
+            muts.append(("ordered", not x.get("ordered", True)))
+        if op in ("span_near2", "span_near"):
+            muts.append(("mindist", x.get("mindist", 1) + 1))
+        if op == "span_first":
+            muts.append(("limit", x.get("limit", 0) + 1))
+        if op == "fuzzy":
+            if x.get("maxdist", 1) < 2:
+                muts.append(("maxdist", x.get("maxdist", 1) + 1))
+            muts.append(("prefixlength", 0 if x.get("prefixlength", 1) else 1))
+        if op in ("trange", "nrange", "drange"):
+            muts.append(("se", not x.get("se")))
+            muts.append(("ee", not x.get("ee")))
+        for k, v in muts:
+            c = copy.deepcopy(qj)
+            list(walk(c))[i][k] = v
+            if k == "slop" and "mindist" in x and v < x.get("mindist", 1):
+                continue
+            out.append(c)
+            if len(out) >= limit:
+                return out
+    return out
+
+
 def run(case, out):
     ix, model = corpus.build(case["hist"], "ram", None, ref_eval, to_whoosh)
     ndocs = len(model.docs)
@@ -140,8 +178,10 @@ def run(case, out):
                                 trig |= and_triggers(arg.simplify(reader))
                             except Exception:
                                 pass
-                    elif name == "op_and":
+                    elif name in ("op_and", "and_sibling"):
                         trig = and_triggers(wq.And([arg[0], arg[1]]))
+                    elif name == "or_sibling":
+                        trig = and_triggers(wq.Or([arg[0], arg[1]]))
                     elif name == "op_sub":
                         trig = and_triggers(wq.And([arg[0], wq.Not(arg[1])]))
                     elif name == "op_or":
@@ -221,6 +261,18 @@ def run(case, out):
                     check("op_and", lambda x: x[0] & x[1], (a, b), da & db)
                     check("op_or", lambda x: x[0] | x[1], (a, b), da | db)
                     check("op_sub", lambda x: x[0] - x[1], (a, b), da - db)
+            # a compound over two queries that differ in one parameter only: normalize() merges duplicates, and
+            # near-duplicates must not count as such
+            for sj in _siblings(qj):
+                try:
+                    sq = to_whoosh(sj)
+                    ds = _docs(s, sq)
+                except wq.QueryError:
+                    continue
+                if ds != base:
+                    out.label("sibling_with_other_result")
+                check("and_sibling", lambda x: wq.And([x[0], x[1]]).normalize(), (q, sq), base & ds)
+                check("or_sibling", lambda x: wq.Or([x[0], x[1]]).normalize(), (q, sq), base | ds)
             try:
                 est = q.estimate_size(reader)
                 if est < len(base):
